@@ -145,6 +145,7 @@ def run_property(prop, tier, seed, workdir, evid_path, t0, only):
     not_decided = []
     groups_run = []
     skipped = []
+    pending = []
     try:
         cxx2c.Source.reset()
         for un in units:
@@ -171,10 +172,11 @@ def run_property(prop, tier, seed, workdir, evid_path, t0, only):
             files = {}
             for g in run_gs:
                 files[g.name] = mmode_file(U, m, g, base_c, workdir) if g.mode == 'M' else cfile
-            res = prove.prove_all(lambda g: files.get(g.name.split('[')[0], cfile), run_gs, workdir, jobs=int(os.environ.get('VERIF_JOBS', '16')))
-            for r in res:
-                r['unit'] = un
-            all_results += res
+            # the groups of all units of the property are proved in ONE pool (below), so that a long group of one unit does not delay the others
+            for g in run_gs:
+                g._cfile = files.get(g.name, cfile)
+                g._unit = un
+            pending.extend(run_gs)
             unit_info[un] = U.manifest()
             # mechanical scan for unchecked assumptions: assume statements in the harness / spec text, stubs with assumed contracts
             unit_info[un]['assume_statements_in_harness'] = len(re.findall(r'__CPROVER_assume\s*\(', getattr(m, 'HARNESS', '')))
@@ -184,6 +186,15 @@ def run_property(prop, tier, seed, workdir, evid_path, t0, only):
             trusted += getattr(m, 'TRUSTED', [])
             for a in scan_assumptions(open(cfile).read()):
                 assumptions.append('%s: %s (inside lemma harness or spec; listed by mechanical scan)' % (un, a))
+        unit_of = {}
+        for g in pending:
+            if g.name in unit_of and unit_of[g.name] != g._unit:
+                raise ExtractError('group name %s used by two units of %s' % (g.name, prop))
+            unit_of[g.name] = g._unit
+        res = prove.prove_all(lambda g: g._cfile, pending, workdir, jobs=int(os.environ.get('VERIF_JOBS', '16')))
+        for r in res:
+            r['unit'] = unit_of[r['group'].split('[')[0]]
+        all_results += res
     except ExtractError as e:
         print('EXTRACTION BROKEN (undecided, exit 2): %s' % e)
         write_evidence(evid_path, prop, tier, seed, t0, [], {}, ['extraction broken: %s' % e], trusted, [], 0, [], error=str(e))
